@@ -40,19 +40,20 @@ Proof. exact body_mutex. Qed.
 Print Assumptions C05_body_mutex.
 
 (* ... and once the marker exists the body never begins again - WHATEVER the schedulers are doing (no hypothesis on
-   their program counters): a process may still be launched by a scheduler that lost the race, its body is skipped *)
+   their program counters): a process already launched by a scheduler that lost the race skips its body *)
 Theorem C05_no_rerun_after_success : forall st tr st', reachable st -> done st = true -> steps st tr st' ->
   (forall p, ~ In (LBegin p) tr) /\ body_runs st' = body_runs st.
 Proof. exact no_rerun_after_success. Qed.
 Print Assumptions C05_no_rerun_after_success.
 
-(* (b) "never launched again by any later experiment".  HYPOTHESIS, not conclusion: every scheduler instance is
-   at a point where it has not yet decided to start the job (snolaunch: not submitted, or still before the
-   second marker test of aio_submit) - in particular every experiment that starts after the marker exists
-   (the _later form: every instance over).  This assumes the race away: a scheduler that made both marker tests
-   BEFORE the marker appeared does launch a process afterwards (C05_launch_after_marker below); what protects
-   the body then is the runner-side test under the lock, i.e. C05_no_rerun_after_success above.  Arbitrary
-   prior contents of the directory, arbitrary processes, crashes and kills included.                       *)
+(* (b) "never launched again".  Once the marker exists nothing is launched any more by any scheduler instance,
+   present or future, EXCEPT those that already hold the job lock and have passed the marker test made under it
+   (snolaunch = every program counter but STrunc / SWrite / SSpawn) - a later experiment (the _later form), an
+   instance still in aio_submit, one waiting to be READY, one waiting for the job lock.  This needs the repaired
+   aio_start (marker tested again once the lock is held); the record of the pinned code is
+   C05_launch_after_marker_refuted.  Arbitrary prior contents, arbitrary processes, crashes and kills included.
+   The protection of the BODY does not rest on this: C05_no_rerun_after_success above has no hypothesis on the
+   schedulers.                                                                                              *)
 Theorem C05_done_never_launched : forall st tr st', done st = true ->
   (forall s, snolaunch (scheds st s) = true) -> steps st tr st' ->
   launches st' = launches st /\ (forall s, ~ In (LSpawn s) tr).
@@ -64,15 +65,16 @@ Theorem C05_done_never_launched_later : forall st tr st', done st = true ->
 Proof. exact done_never_launched_later. Qed.
 Print Assumptions C05_done_never_launched_later.
 
-(* what does happen (first shown by the audit): marker present, scheduler 1 waiting for the job lock after both
-   of its marker tests: it launches a second process (launches 1 -> 2); that process finds the marker under the
-   lock and skips the body (body_runs stays 1), and scheduler 1 reports DONE *)
-Theorem C05_launch_after_marker : exists st st',
-  reachable st /\ done st = true /\ scheds st 1 = SLock /\
-  steps st ([LSLock 1; LTrunc 1; LWrite 1; LSpawn 1; LCreatePid 1; LWritePid 1; LSUnlock 1] ++ tr_proc_skip 1 ++ [LWaitEnd 1]) st' /\
+(* record of the pinned aio_start (no test under the lock; first shown by the audit): marker present, scheduler 1
+   waiting for the job lock after both of its marker tests: it launched a second process (launches 1 -> 2), which
+   found the marker under the lock and skipped the body (body_runs stays 1) - and the launch truncated the output
+   files of the run that had succeeded *)
+Theorem C05_launch_after_marker_refuted : exists st st',
+  run_labels_prefix tr_lam_1 fresh = Some st /\ done st = true /\ scheds st 1 = SLock /\
+  run_labels_prefix tr_lam_2 st = Some st' /\
   launches st = 1 /\ launches st' = 2 /\ body_runs st = 1 /\ body_runs st' = 1 /\ scheds st' 1 = SFinal VDone.
-Proof. exact launch_after_marker. Qed.
-Print Assumptions C05_launch_after_marker.
+Proof. exact launch_after_marker_refuted. Qed.
+Print Assumptions C05_launch_after_marker_refuted.
 
 (* DONE in a scheduler means the marker exists - N schedulers, crashes, kills; needs the repaired script writer
    (temporary file + rename): no job process ever executes an empty script                                  *)
